@@ -39,7 +39,10 @@ type zzH2SQuery struct {
 
 var zzH2SQueries []zzH2SQuery
 
+var zzH2SLastMsg, zzH2SLastDST []byte
+
 func (zzGrp) HashToScalar(msg, dst []byte) group.Scalar {
+	zzH2SLastMsg, zzH2SLastDST = append([]byte{}, msg...), append([]byte{}, dst...)
 	out := zzRFromBytes("hashToScalar", msg, dst)
 	if zzROM {
 		zzAssumeNote(zzNot(zzREq(out, zzRConst(0))), "random oracle: hash-to-scalar outputs are non-zero")
